@@ -6,6 +6,7 @@ CONSTANTS
   Unbounded = 2147483647
   Thresh = 1000
   CapMode = "min"
+  OnSignal = "return"
   Exact = FALSE
 POSTCONDITION TraceAccepted
 CHECK_DEADLOCK FALSE
